@@ -186,6 +186,27 @@ def _run(ctx, pid, thorough, rng, exe, tmp):
         for v in vals:
             s.up([1], 0xa7, [0, v]); s.up([], 0xb2, [0, v, 1, 255 - v, 2, v])
         s.flush(); sessions.append(s.end())
+    if pid == "C17":
+        # shapes at the edges of the result structs: a train without functions, boards without sections, nothing at all
+        edge = [cfgmod.state_tests_like(), {"boards": [], "track": [], "trains": []}]
+        e3 = cfgmod.gen(rng, nboards=2, ntrains=2)
+        for t in e3["trains"]: t["per"] = []
+        e3["track"] = e3["track"][:1]
+        for k in ("pb", "pd", "sb", "sd", "per", "seg", "rev"): e3["track"][0][k] = []
+        edge.append(e3)
+        for i, ec in enumerate(edge):
+            s = g.Session("edge%d" % i, ec, os.path.join(tmp, "edge%d" % i), full=True)
+            hs = [s.hold()]
+            for _ in range(12):
+                if rng.random() < 0.6: s.up(*g.rand_uplink(rng, s))
+                else:
+                    fn, sa, iv = g.rand_command(rng, s); s.hl(fn, sa, iv)
+            hs.append(s.hold())
+            for k in hs: s.held(k)
+            s.stop()
+            for k in hs: s.held(k)
+            for k in hs: s.release(k)
+            sessions.append(s.end())
     nrand = 60 if thorough else 10
     for i in range(nrand):
         sessions.append(build_session(rng, "rnd%d" % i, os.path.join(tmp, "rnd%d" % i), pid, rng.choice([40, 80]) if thorough else 40,
